@@ -121,9 +121,9 @@ def build(cfg):
         validation = Scripted(call_every=v["every"], stops=jnp.array((v["stops"] + [False] * pad)[:pad]),
                               flags=jnp.array((v["flags"] + [False] * pad)[:pad]), count=jnp.array(0))
     elif v and v["type"] == "loss":
-        sub = build(dict(cfg, validation=None, inject=None, seed=cfg["seed"] + 7, param_gen=bool(v.get("own_param_gen"))))
+        sub = build(dict(cfg, validation=None, inject=None, seed=cfg["seed"] + 7, param_gen=bool(v.get("own_param_gen")), obs_gen=bool(v.get("own_obs_gen"))))
         gv, vp = sub["g"], sub["pg"]
-        validation = jinns.validation.ValidationLoss(loss=L, validation_data=gv, validation_param_data=vp, call_every=v["every"],
+        validation = jinns.validation.ValidationLoss(loss=L, validation_data=gv, validation_param_data=vp, validation_obs_data=sub["og"], call_every=v["every"],
                                                      early_stopping=v["early"], patience=v["patience"])
     return dict(u=u, P=P, L=L, g=g, pg=pg, og=og, opt=opt, tracked=tracked, validation=validation)
 
@@ -188,6 +188,10 @@ def reference(cfg, pb=None, start=None):
                         vpd, vpb = vstate.validation_param_data.get_batch()
                         vbatch = jinns.data.append_param_batch(vbatch, vpb)
                         vstate = eqx.tree_at(lambda t: t.validation_param_data, vstate, vpd)
+                    if vstate.validation_obs_data is not None:
+                        vod, vob = vstate.validation_obs_data.get_batch()
+                        vbatch = jinns.data.append_obs_batch(vbatch, vob)
+                        vstate = eqx.tree_at(lambda t: t.validation_obs_data, vstate, vod)
                     vstate = eqx.tree_at(lambda t: t.validation_data, vstate, vd)
                     crit = float(L(pn, vbatch)[0])
                     val_losses.append(crit)
